@@ -19,7 +19,7 @@ RULE = (
     "before its first error followed by an exception of the same class, text and location; both end like yield; "
     "accepted + rejected == number of data rows. Fault injection at every row boundary k: delimited file with an "
     "undecodable byte / an unterminated quote starting in row k, fixed stream and file with a short last record / "
-    "an undecodable byte in row k, ODS and XLSX truncated at several offsets or with a corrupted end: every mode "
+    "an undecodable byte in row k / an input cut inside a CRLF delimiter / a line delimiter the setting forbids, ODS and XLSX truncated at several offsets or with a corrupted end: every mode "
     "must deliver a prefix of the fault-free output and then raise DataFormatError. Non-trivial: >= 1 rejected row "
     "that is not the last, or a fault with >= 1 row before it; distinct by hash of (CID rows, table, fault)."
 )
@@ -135,7 +135,7 @@ def check_case(sub, case):
 # -- faults --------------------------------------------------------------------------------------
 FAULTS = {
     "delimited": ["undecodable-byte", "unterminated-quote"],
-    "fixed": ["short-record", "undecodable-byte", "short-record-stream"],
+    "fixed": ["short-record", "undecodable-byte", "short-record-stream", "cut-line-delimiter", "wrong-line-delimiter"],
     "ods": ["truncate", "corrupt-end", "not-a-zip"],
     "excel": ["truncate", "corrupt-end", "not-a-zip"],
 }
@@ -143,11 +143,17 @@ FAULTS = {
 
 @st.composite
 def fault_cases(draw):
-    kind = draw(st.sampled_from(["delimited", "fixed", "ods", "excel"]))
+    kind = draw(st.sampled_from(["delimited", "fixed", "fixed", "ods", "excel"]))
     spec = draw(gen_tables.cid_specs(kinds=(kind,), max_header=1))
     rows = draw(gen_tables.tables(spec, max_rows=6))
     fault = draw(st.sampled_from(FAULTS[kind]))
     k = draw(st.integers(0, max(len(rows), 1)))
+    if fault == "cut-line-delimiter":
+        spec["fmt"]["line_delimiter"] = "CRLF"
+    elif fault == "wrong-line-delimiter":
+        spec["fmt"]["line_delimiter"] = draw(st.sampled_from(["LF", "CR", "CRLF"]))
+    if fault in ("cut-line-delimiter", "wrong-line-delimiter") and rows:
+        k = draw(st.integers(1, len(rows)))
     fraction = draw(st.integers(1, 99))
     return {"spec": spec, "rows": rows, "fault": fault, "k": k, "fraction": fraction}
 
@@ -173,13 +179,28 @@ def _inject(spec, rows, fault, k, fraction, tmpdir):
         good = gen_tables.fixed_text(rows[:k], spec["fmt"])
         rest = gen_tables.fixed_text(rows[k:], spec["fmt"])
         width = sum(f["length_items"][0][0] for f in spec["fields"])
-        if fault == "undecodable-byte":
+        if fault in ("cut-line-delimiter", "wrong-line-delimiter"):
+            # the input ends in the middle of a CRLF delimiter / uses a delimiter the setting does not permit
+            if k == 0:
+                return None
+            declared = spec["fmt"].get("line_delimiter")
+            if fault == "cut-line-delimiter":
+                if declared != "CRLF":
+                    return None
+                data = good[:-1].encode("utf-8")
+            else:
+                if declared not in ("LF", "CR", "CRLF"):
+                    return None
+                wrong = {"LF": "\r", "CR": "\n", "CRLF": "\n"}[declared]
+                cut = len({"LF": "\n", "CR": "\r", "CRLF": "\r\n"}[declared])
+                data = (good[:-cut] + wrong + rest).encode("utf-8")
+        elif fault == "undecodable-byte":
             data = good.encode("utf-8") + b"\xff" * width + b"\n" + rest.encode("utf-8")
         else:
             if width < 2:
                 return None
             data = (good + "x" * (width - 1)).encode("utf-8")
-        if fault == "short-record-stream":
+        if fault == "short-record-stream" or (fault in ("cut-line-delimiter", "wrong-line-delimiter") and k % 2):
             return io.StringIO(data.decode("utf-8"), newline="")
         path = os.path.join(tmpdir, "fault.txt")
         with open(path, "wb") as f:
